@@ -55,8 +55,9 @@ def resampleWith (f : Stairs Rat) (ivs : List Iv) (vals : List Rat) : Except Err
     pure (layer base ((ivs.zip vals).map fun (iv, v) => ⟨some iv.1, some iv.2, v⟩))
 
 /-- are the slices increasing and non-overlapping (`is_non_overlapping_monotonic`)? -/
-def nonOverlapping : List Iv → Bool
-  | a :: b :: r => decide (a.2 ≤ b.1) && nonOverlapping (b :: r)
+def nonOverlapping (c : IClosed) : List Iv → Bool
+  | a :: b :: r =>
+    (if c = .both then decide (a.2 < b.1) else decide (a.2 ≤ b.1)) && nonOverlapping c (b :: r)
   | _ => true
 
 /-- `rolling_mean(window=(l, r), where=(lo, hi))`: knots and window means -/
